@@ -139,6 +139,8 @@ func (e *c09Env) replayBuf(bh Behaviour) bool {
 			keep(sg)
 		case "BufVerify":
 			addSnap("signature", lastSig)
+			// the SAME long-lived public-key object on every call of every behaviour: its encoding must stay what it is
+			keyBefore, _ := in.X.MarshalBinary()
 			pm, stack, pan = core.Try(func() {
 				if err := e.blsSch.Verify(in.X, buf, lastSig); err == nil {
 					got = "accept"
@@ -146,6 +148,10 @@ func (e *c09Env) replayBuf(bh Behaviour) bool {
 					got = "reject"
 				}
 			})
+			if keyAfter, _ := in.X.MarshalBinary(); !pan && !bytes.Equal(keyBefore, keyAfter) {
+				bad(si, act, "modified-caller-public-key", "bls Verify changed the caller's public-key object", nil)
+				in.X = e.cb.keyGroup().Point().Mul(in.x, nil)
+			}
 		case "BufPartials":
 			partials = nil
 			ref := e.cb.tblsScheme()
